@@ -691,6 +691,10 @@ func (ex *Exec) readElem(st *State, d ArrData, elem types.Type, idx *Term) Val {
 		}
 		ex.assumeValid(st, v, a.Elem, 0)
 		a.Known[k] = v
+		if a.Idx == nil {
+			a.Idx = map[string]*Term{}
+		}
+		a.Idx[k] = idx
 		return v
 	}
 	panic(abortf("readElem: %T", d))
@@ -733,6 +737,10 @@ func (ex *Exec) writeElem(st *State, d ArrData, elem types.Type, idx *Term, v Va
 		}
 		keep[idx.String()] = v
 		n.Known = keep
+		if n.Idx == nil {
+			n.Idx = map[string]*Term{}
+		}
+		n.Idx[idx.String()] = idx
 		n.Dirty = true
 		return n
 	}
